@@ -40,20 +40,18 @@ WB_ASSUMED = [('src/parallel.rs', 'impl TmpNodesReader', 'to_insert'), ('src/par
               ('src/parallel.rs', "impl<'a, DE: BytesEncode<'a>> TmpNodes<DE>", 'into_bytes_reader')]
 FROZEN_ASSUMED = [('src/parallel.rs', "impl<'t, D: Distance> ImmutableLeafs<'t, D>", 'get'), ('src/parallel.rs', "impl<'t, D: Distance> ImmutableTrees<'t, D>", 'get')]
 
-BUILD_CHAIN = {'insert_glue': ['Writer::insert_items_in_tree'], 'insert_driver': ['Writer::insert_items_in_current_trees'], 'iict_lib': None,
+BUILD_CHAIN = {'trees_new': ['ImmutableTrees::new', 'ImmutableTrees::sub_tree_from_id', 'ImmutableTrees::empty', 'NodeId::unwrap_tree'], 'insert_glue': ['Writer::insert_items_in_tree'], 'insert_driver': ['Writer::insert_items_in_current_trees'], 'iict_lib': None,
                'incr_driver': ['Writer::incremental_index_large_descendants'], 'incr_lib': None,
-               'build': ['Writer::build', 'meta_roots_'], 'build_lib': None}
+               'build': ['Writer::build', 'meta_roots_'], 'build_lib': None, 'inv_lib': None}
 TMP = "impl<'a, DE: BytesEncode<'a>> TmpNodes<DE>"
 BUILD_ASSUMED = [('src/writer.rs', 'impl<D: Distance> Writer<D>', 'pre_process_items'),
                  ('src/writer.rs', 'impl<D: Distance> Writer<D>', 'used_tree_node'),
-                 ('src/parallel.rs', "impl<'t, D: Distance> ImmutableTrees<'t, D>", 'new'), ('src/parallel.rs', "impl<'t, D: Distance> ImmutableTrees<'t, D>", 'sub_tree_from_id'),
-                 ('src/parallel.rs', "impl<'t, D: Distance> ImmutableTrees<'t, D>", 'empty'),
                  ('src/parallel.rs', TMP, 'new'), ('src/parallel.rs', TMP, 'new_in'), ('src/parallel.rs', TMP, 'remap'), ('src/parallel.rs', TMP, 'put'), ('src/parallel.rs', TMP, 'remove')]
 BUILD_TRUSTED = [
     'A5 (build-level, not proved): while the id generator of a build is alive, every tree id of the index in the database was present when the generator was created or was issued by it; hence an id it returns is not a tree key of the current view (ConcurrentNodeIds::next_v_) nor of the view a staging area was created under (TmpNodes::taken, rules R12/R12b/R14); axiom_generator_covers ties this to the set passed to ConcurrentNodeIds::new',
-    'A6: rule R11 renders the rayon map of insert_items_in_tree as the sequential loop over the same closure body (proved: one result per root, each satisfying the PROVED contract of insert_items_in_file for a fresh staging area; errors propagate); what the interleaving adds is assumed as axiom_distinct_staging: ids handed to different staging areas during one call are different (the sequential restatement of C13). pre_process_items only rewrites item leaves of the index in place (no key added or removed, encoded length kept); used_tree_node (A1) reports every tree id of the index; ImmutableTrees::new / sub_tree_from_id freeze every tree node / exactly the subtree (assumed contracts in units/lib/frozen_build.rs, drift-guarded)',
+    'A6: rule R11 renders the rayon map of insert_items_in_tree as the sequential loop over the same closure body (proved: one result per root, each satisfying the PROVED contract of insert_items_in_file for a fresh staging area; errors propagate); what the interleaving adds is assumed as axiom_distinct_staging: ids handed to different staging areas during one call are different (the sequential restatement of C13). pre_process_items only rewrites item leaves of the index in place (no key added or removed, encoded length kept); used_tree_node (A1) reports every tree id of the index (assumed, drift-guarded). ImmutableTrees::new / sub_tree_from_id / empty are PROVED in unit trees_new (every tree node of the index / exactly the subtree, with the database values; the (len, ptr) pairs are abstracted as the mapped bytes, the unsafe slice reconstruction in ImmutableTrees::get stays assumed); callers additionally use a ghost-only name db_has for the tree ids the database held when the view was frozen',
     'ghost parameter: incremental_index_large_descendants receives the roots of the forest as a ghost argument (//@ghostparam, //@ghostarg Ghost(roots@) at its call in build); erased at run time',
-    'precondition of build: index_inv (tree keys hold tree nodes, leaves have one length, and when metadata exists: the forest it records is well formed over metadata.items with buckets within the capacity, and an id without an updated mark is stored iff the trees hold it); build re-establishes it (built ==> index_inv); that add_item / del_item / clear preserve it is the mark discipline of C06 (sync clause not re-proved per operation)',
+    'precondition of build: index_inv (tree keys hold tree nodes, leaves have one length, and when metadata exists: the forest it records is well formed over metadata.items with buckets within the capacity, and an id without an updated mark is stored iff the trees hold it); build re-establishes it (built ==> index_inv); unit inv_lib proves that the exact post-states which unit store / writer_scans prove for add_item, append_item, del_item, clear, prepare_changing_distance, rejected calls and operations on other indexes preserve it (the new leaf having the common encoded length is a hypothesis there: a codec fact); the composition over a history is by matching those post-states, not one mechanised induction',
 ]
 PROPS = {
     'C01': {
@@ -130,6 +128,21 @@ PROPS = {
         'not_decided': ['bounded time (termination): not decided; two_means / create_split / normalize (closure and iterator float code) are not under contract, only drift-guarded',
                         ],
     },
+    'C11': {
+        'verus': {'simd_kernels': None},
+        'kani': {'quick': [('metric_formulas', ['cosine_is_zero_when_a_norm_vanishes', 'cosine_orthogonal_is_one_half', 'cosine_is_in_the_unit_interval',
+                                                 'euclidean_distance_is_sqrt_of_the_kernel', 'dot_product_reports_the_inner_product', 'manhattan_normalized_is_nonnegative', 'cosine_header_holds_the_norm'])]},
+        'trusted': ['STRUCTURE ONLY in the Verus unit: every f32 of the kernels is replaced by a ghost term (substitution f32 -> F32 in the extracted functions); floating-point values are not computed',
+                    'intrinsics are stand-ins with the lane semantics of the Intel intrinsics guide: loadu (8 / 4 consecutive elements, all must exist), sub / mul / add / fmadd lane-wise, extractf128 / castps256_ps128 halves, movehl = [b2,b3,a2,a3], shuffle by its immediate, add_ss lane 0, cvtss lane 0',
+                    'pointers are (vector, element offset, length) triples; pointer::add must stay within the allocation or one past its end; read_unaligned / loadu need the element(s) to exist: these are the obligations of the unsafe blocks',
+                    'the plain loops euclidean_distance_non_optimized / dot_product_non_optimized / Manhattan::built_distance (iterator adapters) are ASSUMED to add one summand per index (CBMC does not finish on them even for length 3)',
+                    'is_x86_feature_detected! is an arbitrary boolean; the NEON file is not compiled on this host (its cfg block is dropped as the compiler does)',
+                    'Kani harnesses: the kernels are stubbed by an arbitrary float; header norms are finite and non-negative, kernel results finite (inputs outside produce NaN, which the property does not speak about)'],
+        'not_decided': ['the first sentence of C11 — the reported value is the mathematical one WITHIN THE ROUNDING ERROR of single-precision summation: floating point is uninterpreted in Verus and CBMC cannot discharge summation-order obligations; what is decided is that the computed expression has the right SHAPE (each index once, both operands at the same index, right combination formula per metric)',
+                        'symmetry and self-distance zero: follow from the shape (each summand pairs the same index of both vectors) plus IEEE facts ((a-b)^2 = (b-a)^2, a*b = b*a, x-x = 0) that are not proved',
+                        'byte offsets / alignment of the stored vector: the loads are unaligned loads by construction (loadu / read_unaligned); the pointer stand-in has no alignment notion',
+                        'Euclidean normalized distance is checked to be the correctly signed, monotone square root on sample points and in range, not bit-exact against a reference sqrt'],
+    },
     'C12': {
         'kani': {'quick': [('bq_codec', BQ_QUICK), ('bq_distance', ['bq_euclidean_is_4h_8_bytes', 'bq_dot_product_is_n_minus_2h_8_bytes']), ('bq_manhattan', ['bq_manhattan_is_2h_8_bytes'])],
                  'thorough': [('bq_codec', BQ_MORE), ('bq_distance', ['bq_euclidean_is_4h_16_bytes'])]},
@@ -204,11 +217,11 @@ PROPS = {
                         'a pointwise (key by key) restatement of the fold `upgraded` is not proved as a separate lemma'],
     },
     'C18': {
-        'verus': {'writer_scans': KEYS + ['Writer::prepare_changing_distance', 'clear_tree_nodes'], 'store': ['Writer::need_build'], 'reader_open': ['Reader::open']},
+        'verus': {'writer_scans': KEYS + ['Writer::prepare_changing_distance', 'clear_tree_nodes'], 'store': ['Writer::need_build'], 'reader_open': ['Reader::open'], 'inv_lib': None},
         'kani': {'quick': [('distance_side', ['metric_names_are_reference_strings'])]},
         'trusted': ['two uninterpreted metrics Dist / NDist stand for every ordered pair of the 7 metrics; the TypeId test is an uninterpreted boolean',
                     'requires items_are_leaves (an Item key always holds a leaf) — representation invariant of the item store'],
-        'not_decided': ['after building, the index is valid and searchable under the new metric: follows from the build-chain units (C01/C02) on the "no metadata, no tree key" branch where claimed',
+        'not_decided': ['after building, the index is valid and searchable under the new metric: lemma_inv_no_forest (unit inv_lib) shows that the post-state of prepare_changing_distance satisfies the precondition index_inv of Writer::build on its no-metadata branch; the build itself is C01, the search C02',
                         'vectors "as representable under the new metric": the value is ND::enc(truncate(D::dec(old), dims)); what enc/dec do per codec is C05/C12'],
     },
     'C19': {
